@@ -299,7 +299,7 @@ func (p *envParser) parseMarkerExpr() (marker, error) {
 	}
 
 	// ~= can only compare versions.
-	if (l.version == nil || r.version == nil) && o == markerOpTildeEqual {
+	if r.version == nil && o == markerOpTildeEqual {
 		return nil, fmt.Errorf("~= must compare versions, got %s %s %s", l, o, r)
 	}
 
@@ -430,6 +430,11 @@ func (me markerExpr) Eval(extras map[string]bool) bool {
 	// Try a version comparison first.
 	if me.constraint != nil {
 		return me.constraint.MatchVersion(me.left.version)
+	}
+	// As in pip's packaging, an operator and right operand that form a
+	// version specifier are only ever satisfied by a version.
+	if me.left.version == nil && me.right.version != nil && me.op != markerOpEqualEqualEqual && me.op != markerOpIn && me.op != markerOpNotIn {
+		return false
 	}
 	// Fall back to Python string behaviour where possible.
 	switch me.op {
